@@ -1,12 +1,15 @@
 # C02 - axis-parallel inputs are clipped exactly (mechanisms that keep rectilinear input exact)
 META = dict(
   level_text='Bounded model checking, for all 64-bit coordinates up to 2^61, of the mechanisms that make rectilinear clipping rounding-free: a vertical edge reports its own x at every scanline and has slope exactly 0 (bit-precise IEEE division), a horizontal edge is classified by direction, TrimHorz merges a horizontal run up to the vertex the specification names (reversals kept iff PreserveCollinear, local maxima respected), ResetHorzDirection orders the extent. Cell-exactness of whole results needs the whole sweep (DoHorizontal, joins) and is not decided.',
-  level_note='Vertex rings of 5 vertices for TrimHorz. ConvertHorzSegsToJoins / ProcessHorzJoins / CheckJoinLeft/Right / Split are outside the claim.',
-  functions=['TopX', 'GetDx', 'SetDx', 'IsHorizontal', 'IsHeadingRightHorz/LeftHorz', 'TrimHorz', 'NextVertex', 'ClipperBase::ResetHorzDirection'],
+  level_note='Vertex rings of 5 vertices for TrimHorz. ConvertHorzSegsToJoins / ProcessHorzJoins / Split are outside the claim.',
+  functions=['TopX', 'GetDx', 'SetDx', 'IsHorizontal', 'IsHeadingRightHorz/LeftHorz', 'TrimHorz', 'NextVertex', 'ClipperBase::ResetHorzDirection', 'ClipperBase::CheckJoinLeft', 'ClipperBase::CheckJoinRight'],
   assumptions=['|coordinates| <= 2^61', 'horizontal runs of at most 4 further vertices'],
   outside=['DoHorizontal as a whole, horizontal joins, per-cell exactness of results'],
 )
+JOIN = {'Clipper2Lib::ClipperBase::AddLocalMaxPoly(': 'stub_addlocalmaxpoly', 'Clipper2Lib::ClipperBase::JoinOutrecPaths(': 'stub_joinoutrecpaths',
+        'double Clipper2Lib::PerpendicDistFromLineSqrd<long>(': 'stub_perpdist', 'bool Clipper2Lib::IsCollinear<long>(': 'stub_iscollinear_any'}
 OBLIGATIONS = [
+  O('C02.d-checkjoin', 'eng_units.cpp', 'harness_checkjoin', replace=JOIN, unwind=5, backend=['cadical', 'cvc5int', 'z3'], timeout=300, bound='two adjacent edges with arbitrary geometry |coord|<=2^20, hot/open/type flags, both directions, both check modes; distance kernel arbitrary', desc='a join is only ever made between two hot, closed, non-horizontal neighbours whose tops are collinear with pt (equal curr_x in the strict mode), and does exactly one contour operation'),
   O('C02.a-rectilinear-kernels', 'eng_units.cpp', 'harness_rectilinear_kernels', unwind=4, backend=['sat', 'cadical', 'kissat'], timeout=300, bound='all vertical / horizontal edges, |coord|<=2^61, every scanline y', desc='vertical edge: dx == 0 exactly and TopX == x at every y; horizontal edge: direction flags by sign of dx'),
   O('C02.b-trimhorz', 'eng_units.cpp', 'harness_trimhorz', defs=['HN=4'], unwind=8, bound='ring of 5 vertices, symbolic x, same-y pattern and LocalMax flags, both PreserveCollinear values', desc='TrimHorz ends at the vertex the specification names; dx re-set by direction'),
   O('C02.b-resethorz', 'eng_units.cpp', 'harness_resethorz', unwind=4, bound='all horizontal edges and curr_x', desc='ResetHorzDirection returns an ordered extent and the direction'),
